@@ -62,7 +62,7 @@ def validNext : Status → List Status
                 redirect, skipped]
   | paused => [running, canceled, stopped]
   | suspended => [running, canceled, stopped]
-  | redirect => [running, succeeded, canceled]
+  | redirect => [running, succeeded, terminal, canceled]
   | succeeded | failedContinue | terminal | canceled | stopped | skipped => []
 
 /-- `can_transition` -/
